@@ -272,7 +272,7 @@ CLAIMED = {
          "pattern are regenerated from /repo and pinned. Own output: for the three writers modelled as whole documents the third clause is a theorem - "
          "the SRT writer's document for ANY cue list with visible text whose lines carry no other format's marker is detected as SRT (detect_own_srt: a marker "
          "cannot arise across line boundaries or from index/timing lines), the WebVTT writer's document for ANY text lines is detected as WebVTT (detect_own_vtt: "
-         "'<' is escaped, so '</tt>' cannot occur), the MicroDVD writer's document for lines without '</tt>' is detected as MicroDVD (detect_own_mdvd), the SCC writer's document for ANY caption set of basic characters is detected as SCC (detect_own_scc: its "
+         "'<' is escaped, so '</tt>' cannot occur), the MicroDVD writer's document for lines without '</tt>' is detected as MicroDVD (detect_own_mdvd), for these four writers detection and reading are stated together - the written document is detected as the writer's format AND the reader model of that format reads it to the written cues (own_srt_detected_and_read, own_vtt_detected_and_read, own_mdvd_detected_and_read, own_scc_detected_and_read, on top of C08's hops and C17's written_file_restored) -, the SCC writer's document for ANY caption set of basic characters is detected as SCC (detect_own_scc: its "
          "characters are those of the header, time codes, hex words, tabs, blanks and line feeds - no '<', no 'W', no leading '{', a first line that is no number); the "
          "writer models are tied to the writers document by document in this check. Correspondence: every word of length <=3 (quick) / <=4 (thorough) over 27 symbols, random "
          "longer words, every truncation of writer outputs, and all six writers' own outputs, evaluated on the implementation, the Lean model and the spec."),
